@@ -11,7 +11,12 @@ import (
 
 type J = map[string]any
 
-func jl(xs ...any) []any { return xs }
+func jl(xs ...any) []any {
+	if xs == nil {
+		return []any{}
+	}
+	return xs
+}
 
 func eVar(name string) J   { return J{"k": "var", "name": name} }
 func eAcct(v string) J     { return J{"k": "acct", "v": v} }
